@@ -25,3 +25,36 @@ chk("C17", "exploration", "runtime round-trip monitor: UCI/SAN strings rendered 
 chk("C18", "exploration", "exhaustive runtime comparison of every precomputed table lookup with ray walking on (file,rank) coordinates: all line subsets for rook/bishop per square, all square pairs, all masks, shifts",
     "Finite domain enumerated in both tiers for sliders (every subset of the piece's lines), pairs and masks; queen and shifts additionally sampled on random occupancies.",
     "Trusted: the ray-walk oracle and the geometric definitions documented in bitboard.go.")
+chk("C05", "exploration", "runtime monitor at the UciDriver boundary: every best move / ponder move / iteration PV / final PV of generated searches validated against refchess; position snapshot before/after; node-limit sweep enumerates stop moments; warm-table chains",
+    "Held-on-what-was-explored over thousands of searches in all limit modes, random switch subsets, enumerated stop moments and chained searches on one Search instance.",
+    "Trusted: refchess legality. Non-termination is judged by watchdog + goroutine dump only.")
+chk("C06", "exploration", "runtime differential monitor: engine search value/best move vs a pruning-free negamax reference written in the harness on the engine's own Position/Evaluate; metamorphic comparison across sound-switch masks with quiescence on",
+    "Held-on-what-was-explored: exact equality with an independent minimax on every (root, depth, mask) searched; clause 2 by cross-configuration equality (a pruning-free quiescence reference does not terminate).",
+    "Trusted: Position/movegen/Evaluate shared with the engine (judged by C01-C04, C15). D1 consequences are known findings keyed to trees whose phase sum exceeds 24.")
+chk("C07", "exploration", "runtime invariant hook inside search/qsearch (build tag verif): every mate/stalemate classification observed and judged by refchess (legal-move count, in-check)",
+    "Held-on-what-was-observed: thousands to millions of classifications under default and random pruning configurations; terminal roots through the public result.",
+    "Trusted: refchess; the hook only reads the position.")
+chk("C08", "exploration", "runtime differential monitor: phased generator output vs batch generator as multisets under generated generator states; partition, evasion and HasLegalMove clauses against refchess",
+    "Held-on-what-was-explored over positions x modes x generator states (PV from every stage, killers, history tables, reuse with/without reset, interleaving, abandoned iterations).",
+    "Trusted: refchess pseudo-legal/legal definitions (DESIGN Appendix A); PV moves drawn from the position's pseudo-legal set.")
+chk("C11", "exploration", "runtime reference-model monitor: sequential model of the table driven in lock-step by seeded op histories with colliding keys; capacity established behaviourally; race detector on half of the shards",
+    "Held-on-what-was-explored over histories of Put/Probe/GetEntry/AgeEntries/Clear/Resize; replacement judged in the only-if direction. Key 0 (empty-slot marker) is a known finding.",
+    "Trusted: the reference model incl. the documented age semantics.")
+chk("C12", "exploration", "runtime monitor over recorded UCI sessions (real Loop through pipes, one monotonic clock): offline rules for exactly-one bestmove, ordering vs stop/ponderhit, readyok, position replay (refchess), ucinewgame equality, Print Config diff",
+    "Held-on-what-was-explored over generated protocol-valid sessions incl. zero-delay re-go, stop right after go, isready during search; temporal clause by isolate-and-reproduce.",
+    "Trusted: refchess replay; hand-written option->field table; fresh engine = new handler in the same process.")
+chk("C13", "exploration", "runtime monitor: deterministic sweep of the time-budget computation through a verif-tagged wrapper + limited searches observed through driver/trace (depth, nodes, searchmoves, movetime, live clock budget)",
+    "Budget clause: the parameter grid is swept completely in both tiers (deterministic). Search clauses: held-on-what-was-explored; temporal clause by isolate-and-reproduce.",
+    "Trusted: node overshoot bound 256; allowance 250 ms decided only if reproducible in isolation.")
+chk("C14", "exploration", "Go race detector over lifecycle histories and UCI sessions; per-call watchdog with goroutine-dump classification; offline trace checker (exactly-once, ownership of timers/stops); porcupine linearizability against the sequential lifecycle model",
+    "Held-on-what-was-observed: distinct lifecycle interleavings are counted from the event order; schedules are sampled (seeded delays at hook points), not enumerated.",
+    "Trusted: the sequential model of DESIGN Appendix B; race reports de-duplicated by innermost FrankyGo function pair.")
+chk("C16", "exploration", "runtime robustness monitor: grammar-aware FEN mutation + random bytes judged by round-trip/fixpoint/usability oracles; hostile UCI sessions against the real Loop with isready + position tracking after every line; crash attribution by per-case breadcrumbs and process restart",
+    "Held-on-what-was-explored over tens of thousands of strings and hostile command lines; a panic anywhere kills the child and is attributed to the logged input.",
+    "Trusted: refchess for FEN/position tracking; 'well-formed' = usable by the engine's own predicates and move generator; requested hash sizes are kept small.")
+chk("C19", "exploration", "runtime differential monitor: books built by the real parallel Initialize from generated collections in three formats vs single-threaded reference replay; rebuilds under varying GOMAXPROCS; race detector on half of the shards",
+    "Held-on-what-was-explored; scheduler interleavings are sampled (distinct insertion orders observed are counted).",
+    "Trusted: refchess + engine zobrist key as position identity (C04).")
+chk("C20", "fault_enumeration", "fault enumeration: every prefix length of written cache files (crash points of the non-atomic save) + corruptions classified by an independent gob decode; Initialize under a watchdog with in-process deadlock classification; process restart after a proven hang",
+    "Every crash point of the save is enumerated for cache files up to 16 KB (first/last 4 KB + stride for larger ones); corruptions sampled.",
+    "Trusted: source-built book as reference (C19); encoding/gob as classifier of 'undecodable'.")
